@@ -127,12 +127,14 @@ def _build_frame(case, rows, B):
     data = {}
     for name in case['order']:
         g = next((g for g in case['geoms'] if g['name'] == name), None)
+        # a negative entry -(r+1) is a row that carries the geometry of row r but is marked (rid < 0) to be filtered out
         if g is not None:
-            data[name] = lib(B + ['construct', g['kind']], model.build_array, g['kind'], [g['elements'][r] for r in rows], g['subtype'])
+            data[name] = lib(B + ['construct', g['kind']], model.build_array, g['kind'],
+                             [g['elements'][r if r >= 0 else -r - 1] for r in rows], g['subtype'])
         elif name == 'rid':
             data[name] = np.array(rows, dtype=np.int64)
         else:
-            data[name] = np.array([r * 0.5 for r in rows], dtype=np.float64)
+            data[name] = np.array([abs(r) * 0.5 for r in rows], dtype=np.float64)
     return lib(B + ['construct', 'frame'], sp.GeoDataFrame, data, geometry=case['input_geometry'])
 
 
@@ -154,15 +156,60 @@ def evaluate(case):
         paths = []
         for ds in case['datasets']:
             path = os.path.join(root, ds['name'])
-            gdf = _build_frame(case, ds['rows'], B)
-            ddf = dasktools.ddf_from_sizes(gdf, ds['sizes'])
+            hist = ds.get('history') or {}
+            okw = {}
+            if hist.get('prior'):
+                # history: this path held another dataset before (written, read and queried in this process), which is
+                # then removed or overwritten; nothing of it may show in what is recorded / exposed for the new one
+                rows0 = ds['rows'][::-1] if writer == 'to_parquet' else ds['rows'][::-1][:max(1, (len(ds['rows']) + 1) // 2)]
+                sizes0 = ds['sizes'] if writer == 'to_parquet' else [len(rows0)]
+                d0 = dasktools.ddf_from_sizes(_build_frame(case, rows0, B), sizes0)
+                if writer == 'to_parquet':
+                    lib(B + ['to_parquet'], d0.to_parquet, path)
+                else:
+                    lib(B + ['pack_partitions_to_parquet'], d0.pack_partitions_to_parquet, path, npartitions=ds['npartitions'],
+                        p=case.get('p', 15), _retry_args=dict(RETRY))
+                r0 = lib(BR + ['read_parquet_dask'], read_parquet_dask, path)
+                lib(BR + ['series.partition_bounds'], lambda: [r0[c].partition_bounds for c in gcols])
+                if hist['prior'] == 'rmtree':
+                    shutil.rmtree(path)
+                else:
+                    okw = {'overwrite': True}
+                labels.append('history:path-held-another-dataset(' + hist['prior'] + ')')
+            if hist.get('filter'):
+                # history: the frame written is a row filter of a frame that already carries partition bounds (because it
+                # was read from parquet, or because its partition index was used); each partition of that parent ends
+                # with one extra row, a copy of a row of the next partition, which the filter drops
+                k = len(ds['sizes'])
+                starts = [sum(ds['sizes'][:i]) for i in range(k)]
+                rows2, sizes2 = [], []
+                for i in range(k):
+                    rows2 += ds['rows'][starts[i]:starts[i] + ds['sizes'][i]]
+                    nxt = next((j % k for j in range(i + 1, i + k) if ds['sizes'][j % k]), None)
+                    if ds['sizes'][i] and nxt is not None:
+                        rows2.append(-ds['rows'][starts[nxt]] - 1)
+                        sizes2.append(ds['sizes'][i] + 1)
+                    else:
+                        sizes2.append(ds['sizes'][i])
+                big = dasktools.ddf_from_sizes(_build_frame(case, rows2, B), sizes2)
+                if hist['filter'] == 'after-read':
+                    src = os.path.join(root, 'src_' + ds['name'])
+                    lib(B + ['to_parquet'], big.to_parquet, src)
+                    big = lib(BR + ['read_parquet_dask'], read_parquet_dask, src, geometry=case['input_geometry'])
+                else:
+                    lib(['C12', 'partition_sindex'], lambda: big.partition_sindex)
+                ddf = lib(['C12', 'filter'], lambda: big[big['rid'] >= 0])
+                labels.append('history:filter-of-a-frame-with-bounds(' + hist['filter'] + ')')
+            else:
+                gdf = _build_frame(case, ds['rows'], B)
+                ddf = dasktools.ddf_from_sizes(gdf, ds['sizes'])
             if ddf._meta.geometry.name != case['input_geometry']:
                 raise RuntimeError('harness: active geometry of the input frame not as drawn')
             if writer == 'to_parquet':
-                lib(B + ['to_parquet'], ddf.to_parquet, path)
+                lib(B + ['to_parquet'], ddf.to_parquet, path, **okw)
             else:
                 lib(B + ['pack_partitions_to_parquet'], ddf.pack_partitions_to_parquet, path, npartitions=ds['npartitions'],
-                    p=case.get('p', 15), _retry_args=dict(RETRY))
+                    p=case.get('p', 15), _retry_args=dict(RETRY), **okw)
             paths.append(path)
         how = case['read']['how']
         if how == 'single':
@@ -442,6 +489,10 @@ def _case(draw):
         else:
             ds = {'name': nm, 'rows': rs, 'sizes': _composition(draw, m, draw(st.sampled_from([1, 2, 3, 5])), draw(st.integers(0, 3)) == 0),
                   'npartitions': draw(K)}
+        h = draw(st.sampled_from([None, None, None, {'prior': 'rmtree'}, {'prior': 'overwrite'}, {'filter': 'after-read'}, {'filter': 'after-sindex'},
+                                  {'prior': 'overwrite', 'filter': 'after-read'}]))
+        if h:
+            ds['history'] = h
         datasets.append(ds)
     order = list(draw(st.permutations(names + ['rid'] + (['v'] if draw(st.booleans()) else []))))
     if two:
